@@ -136,7 +136,7 @@ def check(P: Project, R: Report) -> None:
         # names the parameter may be rebound to: only `p0 = p0.decode("utf-8")` under an isinstance(bytes) test
         rebinds = [s for s in walk_local(f.node) if isinstance(s, ast.Assign) and ast.unparse(s.targets[0]) == p0]
         for s in rebinds:
-            ok = ast.unparse(s.value) in (f"{p0}.decode('utf-8')", f"{p0}.decode('utf8')", f"{p0}.decode()")
+            ok = ast.unparse(s.value) in (f"{p0}.decode('utf-8')", f"{p0}.decode('utf8')", f"{p0}.decode()", f"bytes({p0}).decode('utf-8')", f"bytes({p0}).decode('utf8')", f"bytes({p0}).decode()")
             R.ob("R1", f"{fname}: input is only re-decoded as UTF-8", ok, f"{mod.rel}:{s.lineno}", f"`{ast.unparse(s)}` transforms the caller's input")
         lv = local_values(f.node)
 
@@ -154,11 +154,20 @@ def check(P: Project, R: Report) -> None:
                 return False
             if isinstance(e, ast.Name) and e.id == p0:
                 return True
-            if ast.unparse(e) in (f"{p0}.decode('utf-8')", f"{p0}.decode('utf8')", f"{p0}.decode()"):
+            if ast.unparse(e) in (f"{p0}.decode('utf-8')", f"{p0}.decode('utf8')", f"{p0}.decode()", f"bytes({p0}).decode('utf-8')", f"bytes({p0}).decode('utf8')", f"bytes({p0}).decode()", f"str({p0}, 'utf-8')"):
                 return True
+            # the same bytes decoded as UTF-8, whatever the bytes-like input is wrapped in: `bytes(x).decode("utf-8")`
+            if isinstance(e, ast.Call) and isinstance(e.func, ast.Attribute) and e.func.attr == "decode" and [ast.unparse(a_) for a_ in e.args] in ([], ["'utf-8'"], ["'utf8'"]) and not e.keywords:
+                inner = e.func.value
+                if isinstance(inner, ast.Call) and call_name(inner) in ("bytes", "bytearray", "memoryview") and len(inner.args) == 1:
+                    inner = inner.args[0]
+                return is_input(inner, depth + 1)
             if isinstance(e, ast.Name):
                 vals = lv.get(e.id) or []
-                return bool(vals) and all(v_ is not None and is_input(v_, depth + 1) for v_ in vals)
+                # (a self-referential re-decode `x = bytes(x).decode()` adds nothing to where x came from)
+                others = [v_ for v_ in vals if not (v_ is not None and any(isinstance(n_, ast.Name) and n_.id == e.id for n_ in ast.walk(v_)))]
+                selfref = [v_ for v_ in vals if v_ not in others]
+                return bool(others) and all(v_ is not None and is_input(v_, depth + 1) for v_ in others) and all(is_input(ast.parse(ast.unparse(v_).replace(e.id, p0), mode="eval").body, depth + 1) for v_ in selfref)
             return False
 
         for r in rets:
@@ -186,6 +195,20 @@ def check(P: Project, R: Report) -> None:
                     if k.arg in VALUE_CHANGING_STDLIB_KW or k.arg == "indent":
                         R.ob("R2", f"{fname}/stdlib: keyword {k.arg} added by the module", False, where, "this keyword changes decoded values or the frame")
         R.ob("R1", f"{fname}: both sibling branches exist", branches == {"orjson", "stdlib"}, f.where, f"branches {sorted(branches)}")
+        # the refusal arm: whatever the fast backend raises for a value, the stdlib backend gets the same input — the two
+        # libraries do not accept the same set of JSON texts/values (nesting depth, integer range, key types), so an arm
+        # that lets the fast backend's error out makes the result depend on which backend is installed
+        for t_ in walk_local(f.node):
+            if not isinstance(t_, ast.Try) or not any(isinstance(c_, ast.Call) and "orjson" in lib_call_name(c_) and lib_call_name(c_).endswith(f".{fname}") for s_ in t_.body for c_ in walk_local(s_)):
+                continue
+            R.ob("R1", f"{fname}: the fast backend's call has a fall-back arm", bool(t_.handlers), f"{mod.rel}:{t_.lineno}", "")
+            for h_ in t_.handlers:
+                reraises = [r_ for r_ in walk_local(ast.Module(body=h_.body, type_ignores=[])) if isinstance(r_, ast.Raise)]
+                to_stdlib = [c_ for s_ in h_.body for c_ in walk_local(s_) if isinstance(c_, ast.Call) and ("orjson" not in lib_call_name(c_)) and lib_call_name(c_).endswith(f".{fname}")]
+                hn = ast.unparse(h_.type) if h_.type is not None else "<bare>"
+                R.ob("R1", f"{fname}: `except {hn[:40]}` hands the same input to the stdlib backend", bool(to_stdlib) and not reraises, f"{mod.rel}:{h_.lineno}",
+                     f"the arm for `{hn}` " + ("re-raises" if reraises else "does not call the stdlib backend") + ": a value or document the fast backend refuses but the stdlib one takes (nesting beyond its depth limit, integers beyond 64 bits, …) fails with the fast backend installed and succeeds without it",
+                     sample=f"R1 {fname}: except {hn[:30]} → stdlib {fname}")
         # options
         opts = {n.attr: n for n in walk_local(f.node) if isinstance(n, ast.Attribute) and n.attr.startswith("OPT_")}
         # options reached through a module-level abbreviation (`_OPT_PRETTY = _orjson.OPT_INDENT_2`)
